@@ -664,6 +664,13 @@ func (x *Exec) doReturn(st *State, vals []*Term, at ast.Node, implicit bool) {
 				}
 			}
 		}
+		// ghost lemma calls: their preconditions are obligations, their
+		// postconditions (proved where the lemma itself is verified) are assumed
+		for _, l := range fr.fi.Lemmas {
+			if end := x.execBlock(st, l.Body.List); end == nil {
+				return
+			}
+		}
 		for _, e := range fr.fi.Ensures {
 			g := x.evalSpec(st, e.Expr)
 			x.oblige(st, "post", e.Label, g, at)
@@ -1148,7 +1155,14 @@ func (x *Exec) evalConversion(st *State, call *ast.CallExpr, to types.Type) *Ter
 			return v
 		}
 		if x.spec > 0 {
-			return v
+			// specifications use mathematical integers for 64-bit types; narrowing to
+			// a smaller type is modelled exactly
+			if b := basicOf(to); b != nil {
+				switch b.Kind() {
+				case types.Int, types.Int64, types.Uint, types.Uint64, types.Uintptr:
+					return v
+				}
+			}
 		}
 		// conversions that can change the value are always modelled exactly
 		return x.wrapMod(v, to)
